@@ -634,6 +634,8 @@ func lockHandler(item string, replay []int, isReplay bool, journal func([]int)) 
 		switch wrapper {
 		case "Lock":
 			ws = zapcore.Lock(s)
+		case "TwoHandlesLock", "TwoHandlesCombine": // set up below: the sink is locked once and that handle is locked / combined again
+			ws = zapcore.Lock(s)
 		case "LockFailing": // a sink that is down: the lock is released on the error path too (a leaked lock deadlocks the next call)
 			s.fail = true
 			ws = zapcore.Lock(s)
@@ -658,6 +660,14 @@ func lockHandler(item string, replay []int, isReplay bool, journal func([]int)) 
 			s2 = &exclSink{}
 			ws = zap.CombineWriteSyncers(zapcore.Lock(s), zapcore.Lock(s2))
 		}
+		// a second handle on the same sink: threads with an odd index use it
+		ws2 := ws
+		switch wrapper {
+		case "TwoHandlesLock":
+			ws2 = zapcore.Lock(ws)
+		case "TwoHandlesCombine":
+			ws2 = zap.CombineWriteSyncers(ws)
+		}
 		total := 0
 		return mc.Exec{Body: func() {
 			var wg vsync.WaitGroup
@@ -674,10 +684,14 @@ func lockHandler(item string, replay []int, isReplay bool, journal func([]int)) 
 				vsched.Go(func() {
 					defer wg.Done()
 					for oi, op := range p {
+						h := ws
+						if ti%2 == 1 {
+							h = ws2
+						}
 						if op == "W" {
-							ws.Write([]byte(fmt.Sprintf("%d.%d", ti, oi)))
+							h.Write([]byte(fmt.Sprintf("%d.%d", ti, oi)))
 						} else {
-							ws.Sync()
+							h.Sync()
 						}
 					}
 				})
@@ -730,7 +744,7 @@ func main() {
 
 	var items []string
 	progs := []string{"W", "S", "W,S", "S,W", "W,W"}
-	for _, wr := range []string{"Lock", "LockLock", "Combine1", "Combine2", "LockMulti", "LockMultiLocked", "CombineLocked", "LockFailing", "CombineFailing"} {
+	for _, wr := range []string{"Lock", "LockLock", "Combine1", "Combine2", "LockMulti", "LockMultiLocked", "CombineLocked", "LockFailing", "CombineFailing", "TwoHandlesLock", "TwoHandlesCombine"} {
 		for i := 0; i < len(progs); i++ {
 			for j := i; j < len(progs); j++ {
 				items = append(items, fmt.Sprintf("lock|%s|%s;%s", wr, progs[i], progs[j]))
